@@ -160,6 +160,11 @@ func (tl *store) Resolve(id did.DID, resolveMetadata *resolver.ResolveMetadata) 
 				// We're trying to resolve the latest, it should not return an older (active) version when deactivated
 				return resolver.ErrDeactivated
 			}
+			if metadata.Deactivated && deactivatedAtRequestedTime(metadata, resolveMetadata) {
+				// We're trying to resolve the version at a point in time at which the document already was deactivated,
+				// it should not return an older (active) version either.
+				return resolver.ErrDeactivated
+			}
 			if matches(metadata, resolveMetadata) {
 				mdTmp := metadata.asVDRMetadata()
 				returnMetadata = &mdTmp
@@ -337,6 +342,18 @@ func matches(metadata documentMetadata, resolveMetadata *resolver.ResolveMetadat
 // if resolveTime, hash or sourceTransaction is given, most likely the latest version is not requested
 // the deactivated check is then done in matches()
 // finally, if the latest is requested and it is deactivated, the allowDeactivated flag is checked
+// deactivatedAtRequestedTime returns true if the caller asks (only) for the version at a point in time, does not allow
+// deactivated documents, and the given (deactivated) version was in effect at that time.
+func deactivatedAtRequestedTime(metadata documentMetadata, resolveMetadata *resolver.ResolveMetadata) bool {
+	if resolveMetadata == nil || resolveMetadata.AllowDeactivated || resolveMetadata.ResolveTime == nil {
+		return false
+	}
+	if resolveMetadata.Hash != nil || resolveMetadata.SourceTransaction != nil {
+		return false
+	}
+	return !metadata.Updated.After(*resolveMetadata.ResolveTime)
+}
+
 func latestNonDeactivatedRequested(resolveMetadata *resolver.ResolveMetadata) bool {
 	if resolveMetadata == nil {
 		return true
